@@ -68,6 +68,15 @@ func init() {
 	}
 }
 
+// reqOID is the ID of the requested object (PUT: of the object being saved).
+func reqOID(c caseSpec) oid.ID {
+	if c.Cat >= 0 {
+		return catalogueID(c.Cat)
+	}
+	return oids[1]
+}
+func reqOIDStr(c caseSpec) string { return reqOID(c).EncodeToString() }
+
 func cidStr(i int) string  { return cids[i].EncodeToString() }
 func oidStr(i int) string  { return oids[i].EncodeToString() }
 func userStr(i int) string { return pool[i].id.EncodeToString() }
@@ -239,6 +248,11 @@ func (s *sut) configure(c caseSpec) {
 	var b basicacl.Basic
 	b.FromBits(c.Mask)
 	cnr.SetBasicACL(b)
+	var rd netmap.ReplicaDescriptor
+	rd.SetNumberOfObjects(1)
+	var pp netmap.PlacementPolicy
+	pp.SetReplicas([]netmap.ReplicaDescriptor{rd})
+	cnr.SetPlacementPolicy(pp)
 	var other container.Container
 	other.SetOwner(pool[(c.Owner+1)%nKeys].id)
 	other.SetBasicACL(b)
@@ -279,8 +293,8 @@ func metaHeader(c caseSpec) *protosession.RequestMetaHeader {
 	return m
 }
 
-func address() *refs.Address {
-	return &refs.Address{ContainerId: cids[1].ProtoMessage(), ObjectId: oids[1].ProtoMessage()}
+func address(c caseSpec) *refs.Address {
+	return &refs.Address{ContainerId: cids[1].ProtoMessage(), ObjectId: reqOID(c).ProtoMessage()}
 }
 
 func mustSign[B neofscrypto.ProtoMessage](signer neofscrypto.Signer, r neofscrypto.SignedRequest[B]) *protosession.RequestVerificationHeader {
@@ -297,19 +311,19 @@ func buildRequest(c caseSpec) any {
 	meta := metaHeader(c)
 	switch c.Req {
 	case kGet:
-		r := &protoobject.GetRequest{Body: &protoobject.GetRequest_Body{Address: address()}, MetaHeader: meta}
+		r := &protoobject.GetRequest{Body: &protoobject.GetRequest_Body{Address: address(c)}, MetaHeader: meta}
 		r.VerifyHeader = mustSign(signer, r)
 		return r
 	case kHead:
-		r := &protoobject.HeadRequest{Body: &protoobject.HeadRequest_Body{Address: address()}, MetaHeader: meta}
+		r := &protoobject.HeadRequest{Body: &protoobject.HeadRequest_Body{Address: address(c)}, MetaHeader: meta}
 		r.VerifyHeader = mustSign(signer, r)
 		return r
 	case kDelete:
-		r := &protoobject.DeleteRequest{Body: &protoobject.DeleteRequest_Body{Address: address()}, MetaHeader: meta}
+		r := &protoobject.DeleteRequest{Body: &protoobject.DeleteRequest_Body{Address: address(c)}, MetaHeader: meta}
 		r.VerifyHeader = mustSign(signer, r)
 		return r
 	case kRange:
-		r := &protoobject.GetRangeRequest{Body: &protoobject.GetRangeRequest_Body{Address: address(), Range: &protoobject.Range{Length: 1}}, MetaHeader: meta}
+		r := &protoobject.GetRangeRequest{Body: &protoobject.GetRangeRequest_Body{Address: address(c), Range: &protoobject.Range{Length: 1}}, MetaHeader: meta}
 		r.VerifyHeader = mustSign(signer, r)
 		return r
 	case kSearch:
@@ -319,7 +333,7 @@ func buildRequest(c caseSpec) any {
 	case kPut:
 		init := &protoobject.PutRequest_Body_Init{Header: objectHeader(c)}
 		if c.Obj.HasID {
-			init.ObjectId = oids[1].ProtoMessage()
+			init.ObjectId = reqOID(c).ProtoMessage()
 		}
 		r := &protoobject.PutRequest{Body: &protoobject.PutRequest_Body{ObjectPart: &protoobject.PutRequest_Body_Init_{Init: init}}, MetaHeader: meta}
 		r.VerifyHeader = mustSign(signer, r)
@@ -358,7 +372,7 @@ func (s *sut) composed(c caseSpec, req any) sutResult {
 		info     aclsvc.RequestInfo
 		err      error
 		objOwner user.ID
-		objID    = oids[1]
+		objID    = reqOID(c)
 	)
 	switch r := req.(type) {
 	case *protoobject.GetRequest:
@@ -412,7 +426,7 @@ func (s *sut) composed(c caseSpec, req any) sutResult {
 		msg = b
 	case c.Req == kGet:
 		msg = &protoobject.GetResponse{Body: &protoobject.GetResponse_Body{ObjectPart: &protoobject.GetResponse_Body_Init_{
-			Init: &protoobject.GetResponse_Body_Init{ObjectId: oids[1].ProtoMessage(), Header: hdr}}}}
+			Init: &protoobject.GetResponse_Body_Init{ObjectId: reqOID(c).ProtoMessage(), Header: hdr}}}}
 	default:
 		msg = &protoobject.HeadResponse{Body: &protoobject.HeadResponse_Body{Head: &protoobject.HeadResponse_Body_Header{
 			Header: &protoobject.HeaderWithSignature{Header: hdr}}}}
